@@ -17,10 +17,14 @@ type Scenario struct {
 	Q1   int  // PRECOMMIT recipients: 0 all; 1 leader only; 2 minimal quorum incl. leader; 3 none
 	Q2   int  // COMMIT recipients: 0 all; 1 none; 2 leader only; 3+i node i only
 	V    int  // Byzantine replica: 0 votes; 1 withholds its votes
+	J    int  // Byzantine leader's PRECOMMIT justification: 0 the certificate it just aggregated; 1 a REPLAYED certificate: the first certificate of the first certified block (other round, possibly other results) under the current message header
 	L    int  // Byzantine leader: 0 honest; 1,2 re-proposes known certificate 0/1 with that certificate as HighQc; 3 proposes a fresh block with no justification; 4 equivocates (X to one half of the honest nodes, X' to the other); 5,6 like 1,2 with the latest certificate; 7 equivocates on the certificate RESULTS only (same block, results R / R'); 8 proposes the first certified block again with OTHER results and no justification
 }
 
 func (s Scenario) String() string {
+	if s.J != 0 {
+		return fmt.Sprintf("{bump:%v E:%d P:%d Q1:%d Q2:%d V:%d L:%d J:%d}", s.Bump, s.E, s.P, s.Q1, s.Q2, s.V, s.L, s.J)
+	}
 	return fmt.Sprintf("{bump:%v E:%d P:%d Q1:%d Q2:%d V:%d L:%d}", s.Bump, s.E, s.P, s.Q1, s.Q2, s.V, s.L)
 }
 
@@ -455,6 +459,15 @@ func (w *World) puppet(rc *roundCtx, phaseFired lib.Phase) {
 				t.pcSig, t.pcHdr = as, hdr
 			} else {
 				t.pvSig, t.pvHdr = as, hdr
+				if rc.sc.J == 1 {
+					// replay: justify the PRECOMMIT with an OLD certificate of the first certified block
+					if c := w.certFor(0, false); c != nil && c.QC != nil && c.QC.Header != nil && c.QC.Header.Phase == lib.Phase_PROPOSE_VOTE {
+						m := &bft.Message{Header: view(ph), Qc: &lib.QuorumCertificate{Header: c.QC.Header.Copy(), BlockHash: c.QC.BlockHash, ResultsHash: c.QC.ResultsHash,
+							ProposerKey: c.QC.ProposerKey, Signature: c.QC.Signature}, RcBuildHeight: t.rcBuild}
+						sendAll(m)
+						continue
+					}
+				}
 			}
 			m := &bft.Message{Header: view(ph), Qc: &lib.QuorumCertificate{Header: hdr, BlockHash: t.bh, ResultsHash: t.rh, ProposerKey: rc.tmpl.Qc.ProposerKey, Signature: as}, RcBuildHeight: t.rcBuild}
 			sendAll(m)
